@@ -533,32 +533,69 @@ def run(ctx):
     from .smcloop import checkpoint_closure
     _mc = checkpoint_closure(repo)
     cps = [n for n in lcfg["body"] for c in calls_in(n.ast) if isinstance(c.func, ast.Name) and _mc is not None and c.func.id == _mc.name]
-    if len(cps) != 1:
-        ctx.unknown("C11.cut", sample.ident, loc_of(sample, loop_node), f"expected one checkpoint call in the loop body, found {len(cps)}")
-    else:
-        after = set()
-        todo = [m for m, lab in g.succ[cps[0]] if lab != "exc"]
+
+    def _writes(n):
+        """loop-carried writes of CFG node *n*: assignments to carried locals and the calls that advance the run"""
+        a = n.ast
+        out = []
+        if isinstance(a, (ast.Assign, ast.AugAssign, ast.AnnAssign)):
+            tg = a.targets if isinstance(a, ast.Assign) else [a.target]
+            for t in tg:
+                for x in ast.walk(t):
+                    if isinstance(x, ast.Name) and x.id in carried:
+                        out.append(f"{x.id} assigned at line {a.lineno}")
+        for c in calls_in(a):
+            if isinstance(c.func, ast.Attribute) and c.func.attr in ("mutate", "resample", "determine_beta", "append"):
+                out.append(f"{c.func.attr}() at line {c.lineno}")
+        return out
+
+    def _fwd(starts):
+        seen = set()
+        todo = list(starts)
         while todo:
             n = todo.pop()
-            if n in after or n not in lcfg["body"]:
+            if n in seen or n not in lcfg["body"]:
                 continue
-            after.add(n)
+            seen.add(n)
             todo.extend(m for m, lab in g.succ[n] if lab not in ("exc", "back"))
-        bad = []
-        for n in after:
-            a = n.ast
-            if isinstance(a, (ast.Assign, ast.AugAssign)):
-                tg = a.targets if isinstance(a, ast.Assign) else [a.target]
-                for t in tg:
-                    for x in ast.walk(t):
-                        if isinstance(x, ast.Name) and x.id in carried:
-                            bad.append(f"{x.id} assigned at line {a.lineno}")
-            for c in calls_in(a):
-                if isinstance(c.func, ast.Attribute) and c.func.attr in ("mutate", "resample", "determine_beta", "append"):
-                    bad.append(f"{c.func.attr}() at line {c.lineno}")
-        ctx.decide(not bad, "C11.cut", sample.ident, loc_of(sample, cps[0].ast),
+        return seen
+
+    def _bwd(starts):
+        seen = set()
+        todo = list(starts)
+        while todo:
+            n = todo.pop()
+            if n in seen or n not in lcfg["body"]:
+                continue
+            seen.add(n)
+            todo.extend(m for m, lab in g.pred[n] if lab not in ("exc", "back"))
+        return seen
+
+    if not cps:
+        ctx.unknown("C11.cut", sample.ident, loc_of(sample, loop_node), "no checkpoint call found in the loop body")
+    for i, cp in enumerate(cps):
+        disc = "" if i == 0 else f"cp{i}"
+        bad = sorted({w for n in _fwd([m for m, lab in g.succ[cp] if lab != "exc"]) for w in _writes(n)})
+        # a checkpoint reached through an exceptional edge (a handler / finally): the statement that raised and everything
+        # after it in the iteration did not run, so the iteration's writes are only partly done at the checkpoint
+        partial = []
+        back = _bwd([cp])
+        for n in lcfg["body"]:
+            for m, lab in g.succ[n]:
+                if lab == "exc" and m in back and n not in back:
+                    skipped = sorted({w for k in _fwd([n]) if k is not cp for w in _writes(k)})
+                    done = sorted({w for k in _bwd([k_ for k_, l_ in g.pred[n] if l_ not in ("exc", "back")]) for w in _writes(k)})
+                    if skipped and done:
+                        partial.append((n, skipped, done))
+        if partial:
+            n, skipped, done = partial[0]
+            ctx.refute("C11.cut", sample.ident, loc_of(sample, cp.ast),
+                       f"the checkpoint call at line {cp.lineno} is reached when the statement at line {n.lineno} raises: by then {done[:2]} of this iteration "
+                       f"have run but {skipped[:2]} have not -- the checkpoint pairs the advanced temperature / history with a population from before the step", disc=disc or "exc")
+            continue
+        ctx.decide(not bad, "C11.cut", sample.ident, loc_of(sample, cp.ast),
                    "the checkpoint call comes after every loop-carried write of its iteration",
-                   f"state written after the checkpoint call and before the next iteration: {bad[:3]} (the checkpoint does not describe the state the next iteration starts from)")
+                   f"state written after the checkpoint call and before the next iteration: {bad[:3]} (the checkpoint does not describe the state the next iteration starts from)", disc=disc)
 
     # ---- source dispatch
     brf = base.methods.get("restore_from_checkpoint")
@@ -733,6 +770,8 @@ _B = "src/aspire/samplers/smc/base.py"
 _SB = "src/aspire/samplers/base.py"
 _A = "src/aspire/aspire.py"
 MUTANTS = [
+    M("checkpoint written from an interrupt handler around the mutation step", _B, "samples = self.mutate(samples, beta)\n                if store_sample_history:",
+      "try:\n                    samples = self.mutate(samples, beta)\n                except KeyboardInterrupt:\n                    maybe_checkpoint(force=True)\n                    raise\n                if store_sample_history:", "C11.cut"),
     M("min_step not checkpointed", _B, "state = self.build_checkpoint_state(\n                samples, iterations, beta, min_step=min_step\n            )", "state = self.build_checkpoint_state(samples, iterations, beta)", "C11.state"),
     M("min_step not restored", _B, "if resumed and self._restored_min_step is not None:", "if False:", "C11.state"),
     M("beta not in the payload", _B, "meta={\"beta\": beta, \"min_step\": min_step},", "meta={\"min_step\": min_step},", ("C11.state", "C11.keys")),
@@ -778,6 +817,8 @@ MUTANTS += [
     M("history shallow-copied into the checkpoint", _B, "history_copy = copy.deepcopy(self.history)", "history_copy = copy.copy(self.history)", "C11.snapshot"),
 ]
 NEUTRALS = [
+    M("interrupt handler around the mutation step that only logs", _B, "samples = self.mutate(samples, beta)\n                if store_sample_history:",
+      "try:\n                    samples = self.mutate(samples, beta)\n                except KeyboardInterrupt:\n                    logger.warning(\"interrupted\")\n                    raise\n                if store_sample_history:"),
     M("payload call with keywords", _B, "state = self.build_checkpoint_state(\n                samples, iterations, beta, min_step=min_step\n            )", "state = self.build_checkpoint_state(\n                samples=samples, iteration=iterations, beta=beta, min_step=min_step\n            )"),
     M("history copied with another helper", _B, "history_copy = copy.deepcopy(self.history)", "history_copy = copy.copy(self.history)\n        history_copy = copy.deepcopy(history_copy)"),
 ]
